@@ -214,6 +214,11 @@ func (in *Interp) fail(s *State, kind, label, pos string) {
 		}
 		f.Model = m
 		f.Vector = in.vector(s, m)
+	} else if err == nil && r == smt.Unsat {
+		// the path condition is unsatisfiable: the path was kept alive only by an undecided
+		// feasibility query; no execution takes it, so there is nothing to report
+		in.St.Notes["infeasible-path-dropped"]++
+		return
 	} else {
 		fmt.Fprintln(os.Stderr, "no model for failing state:", r, err)
 		f.Vector = in.vector(s, nil)
